@@ -10,21 +10,30 @@ PROP = {
              "(halted_step) a suspended step delivers exactly 4 clocks and charges one cycle; (catchup_before_sample, _block) the "
              "state handed to handle_interrupt carries the bus returned by the device catch-up of the same step; (op_clocks_ge_4, "
              "progress, progress_blocks) every decoder clock entry is >= 4 and every step advances device time by >= 4 clocks; "
-             "(step_at_most_56) an instruction-stepped step delivers at most 56 clocks; (crosses_frame, run_frame_terminates_partial, "
-             "_update, _blocks) Core::run_frame (which, since /repo c28667b, waits for the LCD's count of completed frames to change) "
-             "returns within one frame period plus one step under instruction stepping AND block stepping with NO bound on the block "
-             "length, ASSUMING the frame count is the number of whole 70224-clock periods of the LCD clock (C14: exactly one VBlank "
-             "entry per period however time is batched; the composition of the device function with the LCD model is not done). "
+             "(step_at_most_56) an instruction-stepped step delivers at most 56 clocks; (sys_inv_update, sys_inv_updateBlock, "
+             "sys_inv_reachable, sys_lcd_observables) for the WHOLE-MACHINE device function Sys.dev (MemoryAreas::run_clock_cycles "
+             "composed from the models of OAM DMA with its per-byte catch-up, the timer of C13, the LCD line/mode machine of C14 with "
+             "frames_completed, the joypad request of C17) the LCD sits at the closed-form schedule position of the delivered clock "
+             "total and has counted delivered / 70224 frames after every step of every run from power-on, whatever the program does "
+             "(frame lemma over all 90 Op variants: the bus changes only through writes, and no write touches the LCD's timing "
+             "state); (crosses_frame, run_frame_terminates, run_frame_terminates_blockstep) hence Core::run_frame (which, since "
+             "/repo c28667b, waits for the LCD's count of completed frames to change) returns within one frame period plus one step "
+             "under instruction stepping AND block stepping with NO bound on the block length and NO assumption left about the "
+             "devices; (run_frame_terminates_partial, _update, _blocks) the same for any device function whose frame counter is "
+             "the number of whole 70224-clock periods. "
              "The model is tied to emulator.rs by three "
              "streams of generated programs on the real Core::update: c09 (instruction-stepped) checks from the implementation's "
              "outputs alone that each step's clocks (timer hook) are 4 x (SM83 cycle count of the instruction at the observed PC "
              "under the observed flags + 5 after a dispatch, 1 when suspended), >= 4, that LY follows the LCD schedule of the same "
-             "clock total, then the model replay with the C13 timer model and the OAM-DMA model as devices; c09.blocks (jit build) "
-             "checks clocks = 4 x last_block_cycle_length per block and the block model; c09.frame (jit build) runs the REAL Core::run_frame twice "
-             "in a child process under an alarm on NOP-sled blocks of parametrised length (incl. 1463- and 2926-cycle blocks that "
-             "divide the frame period): each call must return after at most two completed frames.",
+             "clock total, then replays the program on Core.update Sys.dev and compares registers, IME, run state, all five IF "
+             "bits, DIV, LY, STAT and frames_completed after every step (programs program TMA/TIMA/TAC, STAT enables, LYC and IE "
+             "incl. the VBlank/STAT bits, start OAM DMAs, HALT on timer or STAT wake-ups); c09.blocks (jit build) "
+             "checks clocks = 4 x last_block_cycle_length per block and the block model; c09.frame (jit build) runs the REAL "
+             "Core::run_frame twice in a child process under an alarm on NOP-sled blocks of parametrised length (incl. 1463- and "
+             "2926-cycle blocks that divide the frame period): each call must return after at most two completed frames, and the "
+             "same two calls on the whole-machine model must agree on frames completed, LY and mode at return.",
     "note": "Trusted: Lean kernel, harness/driver, hand-written models (Core, Cpu/Interp of C05/C06, Bus of C10, Timer of C13) "
-            "validated by differential runs only. The ghost counters exist only in the model: they are tied by comparing "
+            "and the composition Sys.dev validated by differential runs only. The ghost counters exist only in the model: they are tied by comparing "
             "`delivered mod 65536` with the timer's cycle_count hook after every step (programs never write DIV). The jit-build "
             "model uses the interpreter as block engine (engine independence is C04). Wall-clock pacing is absent from the code "
             "and not covered. The former non-termination of run_frame under block stepping was repaired (fixed: c28667b).",
@@ -35,12 +44,13 @@ PROP = {
                 {"name": "c09.blocks", "jit": True, "shards": {"quick": 2, "thorough": 16}},
                 {"name": "c09.frame", "jit": True, "shards": {"quick": 1, "thorough": 4}}],
     "modules": ["GbVerif.Model.Core", "GbVerif.Model.Cpu", "GbVerif.Model.Interp", "GbVerif.Spec.Lcd", "GbVerif.Proofs.CoreIrq",
-                "GbVerif.Proofs.CoreCycles", "GbVerif.Proofs.CoreStep", "GbVerif.Proofs.CoreFrame", "GbVerif.Props.C06"],
+                "GbVerif.Proofs.CoreCycles", "GbVerif.Proofs.CoreStep", "GbVerif.Proofs.CoreFrame", "GbVerif.Props.C06",
+                "GbVerif.Model.Sys", "GbVerif.Model.Timer", "GbVerif.Model.Lcd", "GbVerif.Proofs.InterpFrame", "GbVerif.Proofs.SysFrame"],
     "exhaustive": False,
     "rule": "quick 200 / thorough 6000 generated programs (1-3 subroutines, prologue programming TMA/TIMA/TAC/IE, 3-16 blocks out of "
             "13 kinds, HALT/STOP/NOP tail loop) x 1000 / 1500 steps, per build; c09.frame: 7 fixed + 12 / 60 random (first block, "
             "loop block) lengths. Non-trivial = some step was suspended or ended in a dispatch (frame: a block longer than a line).",
-    "assumptions": ["run_frame_terminates_*: the LCD's frame counter equals (offset + delivered clocks) / 70224 - the composition of the "
-                    "device function with the LCD model of C14 is not done",
+    "assumptions": ["pixel work of the LCD (line buffers, sprite search, swap_buffers) is not in Sys.dev: it writes none of the state the CPU, "
+                    "the interrupt logic or run_frame can observe",
                     "registers.cycles is a u32 that does not overflow within a step (a block would need 2^32 cycles)"],
 }
